@@ -344,10 +344,50 @@ static Outcome ArchiveLeg(RunCtx& ctx, Outcome& out)
 	return out;
 }
 
+// DetectEncoding(std::istream&, skipBom): detection on a stream that is not at position 0, and the position it leaves behind
+static Outcome DetectLeg(RunCtx& ctx, Outcome& out)
+{
+	Source& s = ctx.src;
+	const int enc = static_cast<int>(s.draw(sim::L_CFG, 5));
+	const bool bom = s.chance(sim::L_CFG, 1, 2);
+	const bool skipBom = s.chance(sim::L_CFG, 1, 2);
+	const uint32_t prefix = s.draw(sim::L_DOC, 3) == 0 ? 0 : s.draw(sim::L_DOC, 300);
+	std::u32string text = GenText(s, sim::L_DOC, TextProfile::Any, 300);
+	if (text.empty()) text = U"T";
+	if (text[0] >= 0x80 || text[0] == 0) text[0] = U'T';
+	for (auto& ch : text) if (ch == 0) ch = U'0';
+	std::string bytes(prefix, '#');
+	const std::string bomBytes = bom ? RefBom(enc) : std::string();
+	bytes += bomBytes;
+	for (char32_t c : text) RefEncode(bytes, c, enc);
+	InCfg c = DrawStreamCfg(s, sim::L_IO);
+	c.seekable = true;
+	ctx.note(std::string("detect leg: enc=") + EncName(enc) + (bom ? "+bom" : "") + " skipBom=" + (skipBom ? "1" : "0") + " stream position=" + std::to_string(prefix) + " bytes=" + std::to_string(bytes.size()) + " stream=" + c.str());
+	ctx.count("leg.detect");
+	sim::SimIStreamBuf sb(bytes, true, c.delivery);
+	sb.SetSeekBeyondFails(c.seekBeyondFails);
+	std::istream is(&sb);
+	is.seekg(static_cast<std::streamoff>(prefix));
+	int detected = -1;
+	sim::steps_begin(3000ull * (bytes.size() + 4096));
+	CallResult cr = Guarded([&] { detected = static_cast<int>(BitSerializer::Convert::Utf::DetectEncoding(is, skipBom)); });
+	sim::steps_end();
+	const std::string tags = std::string("leg=detect enc=") + EncName(enc) + (bom ? " bom=1" : " bom=0") + (skipBom ? " skipbom=1" : " skipbom=0");
+	if (!cr.ok) return Violation("WRONG_EXCEPTION", tags, "DetectEncoding threw " + cr.cat + " (" + cr.what + ")");
+	out.nontrivial = prefix != 0;
+	if (detected != enc) return Violation("WRONG_VALUE", tags + " what=detection", std::string("detected ") + (detected >= 0 && detected < 5 ? EncName(detected) : "?") + " for a stream written in " + EncName(enc));
+	const size_t expectPos = prefix + (bom && skipBom ? bomBytes.size() : 0);
+	const std::streamoff pos = is.tellg();
+	if (is.fail() || pos != static_cast<std::streamoff>(expectPos))
+		return Violation("WRONG_VALUE", tags + " what=position", "after DetectEncoding the stream is at " + std::to_string(static_cast<long long>(pos)) + (is.fail() ? " (failed)" : "") + ", expected " + std::to_string(expectPos));
+	return out;
+}
+
 Outcome RunC13(RunCtx& ctx)
 {
 	Outcome out;
-	const uint32_t leg = ctx.src.draw(sim::L_CFG, 8);
+	const uint32_t leg = ctx.src.draw(sim::L_CFG, 9);
+	if (leg == 8) { out.cfgKey = "detect"; Outcome v = DetectLeg(ctx, out); return v.violation ? v : out; }
 	if (leg <= 4) { out.cfgKey = "reader"; Outcome v = ReaderLeg(ctx, out); return v.violation ? v : out; }
 	if (leg <= 5) { out.cfgKey = "writer"; Outcome v = WriterLeg(ctx, out); return v.violation ? v : out; }
 	out.cfgKey = "archive";
